@@ -635,7 +635,7 @@ def main():
                "cholmod (submatrix, sdmult, drop, analyze, factorize, rowadd, rowdel, solve) and SuiteSparseQR's backslash (least-squares solution of a full-column-rank system) are an assumed contract: exact sparse algebra, a factor is the factorisation of its matrix",
                "recompute_factor and get_column (they work inside cholmod's factor / compressed-column arrays) are replaced by their documented effect: NOT verified",
                "the worker threads of walk_descents are run to completion one after the other when the coordinator waits (protocol: C12)",
-               "machine arithmetic treated as mathematical: every decision of the solvers is taken on exact rationals; rounding and conditioning are not modelled",
+               "machine arithmetic treated as mathematical: every decision of the solvers is taken on exact rationals; rounding and conditioning are not modelled, except that nnls_normal_block3 is also run with noise of size 2^-53 * |operand| and either sign at every exact cancellation (a test of robustness, not a model of IEEE arithmetic)",
                "qsort: the comparator of the source is called on the elements; intcmp reads long elements through int pointers (values < 2^31)",
                "termination is decided only for the enumerated systems (step limit of the interpreter; the solver's own iteration cap is visible as a KKT failure)")
     rep.trust("tools/gotoexec.py", "goto-cc front end", "fractions.Fraction")
